@@ -14,7 +14,7 @@ import "fmt"
 // functions.
 func FuncUniverse(level int) (*Schema, *Helpers, []*StructDef) {
 	s, h := Universe(level)
-	tag := uint32(0x20000001)
+	tag := uint32(0x30000001)
 	n := 0
 	var funcs []*StructDef
 	fn := func(annot string, result *Type, fields ...Field) *StructDef {
@@ -86,11 +86,8 @@ func FuncUniverse(level int) (*Schema, *Helpers, []*StructDef) {
 	// shaped element types inside containers
 	arN := &Type{Kind: KStruct, Def: h.Ar, Args: []Nat{FieldN(0)}, Angle: true}
 	omN := &Type{Kind: KStruct, Def: h.Om, Args: []Nat{FieldN(0)}, Angle: true}
-	fn("read", ang(VecBoxed(arN)), F("n", TNat))
-	fn("read", ang(VecBoxed(omN)), F("m", TNat))
 	fn("read", ang(Maybe(arN)), F("n", TNat))
 	fn("read", ang(Maybe(omN)), F("m", TNat))
-	fn("read", VecBoxed(Ref(h.Ar, FieldN(0))), F("n", TNat)) // (Vector (u.ar n))
 	fn("read", ang(bx(Tup(omN, Const(3)))), F("m", TNat))
 	fn("read", ang(bx(Dict(arN))), F("n", TNat))
 	// the same field sizes the result and an array of the request
@@ -99,6 +96,21 @@ func FuncUniverse(level int) (*Schema, *Helpers, []*StructDef) {
 	fn("read", ang(bx(Tup(TInt, FieldN(1)))), F("m", TNat), FM("n", TNat, FieldN(0), 0))
 	fn("read", RefBoxed(h.Om, FieldN(1)), F("f", TNat), FM("m", TNat, FieldN(0), 3))
 
+	if level >= 2 {
+		// vectors whose element type can be encoded in 0 bytes for some request (n = 0, m = 0): the generated reader rejects
+		// such valid encodings (CheckLengthSanity demands 4 bytes per element; known finding of C01, kept at level 2 like
+		// the corresponding types of Universe(2))
+		fn("read", ang(VecBoxed(arN)), F("n", TNat))
+		fn("read", ang(VecBoxed(omN)), F("m", TNat))
+		fn("read", VecBoxed(Ref(h.Ar, FieldN(0))), F("n", TNat)) // Vector (u.ar n)
+		// depth-2 results
+		fn("read", ang(VecBoxed(ang(Vec(TInt)))), F("x", TInt))
+		fn("read", ang(Maybe(ang(Vec(TString)))), F("x", TInt))
+		fn("read", ang(VecBoxed(ang(Maybe(TInt)))), F("x", TInt))
+		fn("read", ang(bx(Tup(ang(Vec(Ref(h.St))), FieldN(0)))), F("n", TNat))
+		fn("read", ang(VecBoxed(ang(Tup(TInt, FieldN(0))))), F("n", TNat))
+		fn("read", ang(bx(Dict(ang(Maybe(URef(h.Un)))))), F("x", TInt))
+	}
 	s.Structs = append(s.Structs, funcs...)
 	s.Tops = append(s.Tops, funcs...)
 	return s, h, funcs
